@@ -180,6 +180,7 @@ def run(ctx):
     _default_grid_cases(ctx, meta, st_go)
     run_large(ctx, meta)
     run_after_search(ctx, pygam)
+    run_forced_grids(ctx, pygam)
 
 
 def _check_model(ctx, cls_name, pr, gam, toks, grids, outs, st, st_or, st_g, st_go):
@@ -466,6 +467,7 @@ def run_after_search(ctx, pygam):
         try:
             with contextlib.redirect_stdout(buf), contextlib.redirect_stderr(buf):
                 gam = cls(terms, max_iter=50)
+                gam.lam = 1e5          # the start is badly over-smoothed: every candidate of the search below beats it
                 gam.fit(X, y)
                 # queries that a caching layer would serve from
                 gam.predict(X[:5])
@@ -474,7 +476,7 @@ def run_after_search(ctx, pygam):
                     if not t.isintercept:
                         gam.partial_dependence(ti, X=X[:5], width=0.9)
                         gam.partial_dependence(ti)
-                gam.gridsearch(X, y, n_splines=np.array(grid), progress=False)
+                gam.gridsearch(X, y, n_splines=np.array(grid), lam=[0.05, 1.0], progress=False)
             layout_changed = True
             Xq = rs.uniform(-1, 1, size=(12, 4))
             coef = np.asarray(gam.coef_, dtype=float)
@@ -527,6 +529,73 @@ def run_after_search(ctx, pygam):
             if common.REPO in tb:
                 ctx.fail(st, dict(kind='exception', exc=type(e).__name__), dict(sig, grid=grid), observed='%s: %s' % (type(e).__name__, str(e)[:300]),
                          expected='queries on the model after the search', oracle='public API must not raise on valid input', detail=tb[-1500:])
+            else:
+                raise
+
+
+def run_forced_grids(ctx, pygam):
+    """in every run, whatever the draw: a by-variable in column 0 (a falsy index) and user meshes in every memory layout"""
+    st = 'grid.forced'
+    ctx.stream(st, 'fixed models in every run: terms whose by-variable is column 0 (default grid: by column = 1, partial_dependence() = partial_dependence(X = documented grid)); '
+                   'tensor term with user meshes in C / Fortran / transposed-view layouts and integer / float32 first axes (values at the mesh points)')
+    from pygam import LinearGAM, PoissonGAM, s, te
+    for k in range(4 if ctx.tier == 'quick' else 16):
+        rng = ctx.subrng('forced-grid', k)
+        rs = np.random.RandomState(rng.getrandbits(32))
+        n = 80
+        X = np.c_[rs.choice([-1.0, 0.5, 1.0, 2.0], n), rs.uniform(0, 1, n), rs.uniform(-2, 2, n), rs.uniform(10, 20, n)]
+        f = X[:, 0] * np.sin(3 * X[:, 1]) + 0.3 * X[:, 2] + 0.05 * (X[:, 3] - 15) * X[:, 2]
+        cls = [LinearGAM, PoissonGAM][k % 2]
+        y = f + 0.2 * rs.randn(n) if cls is LinearGAM else rs.poisson(np.exp(0.4 * f)).astype(float)
+        terms = (s(1, by=0, n_splines=6) + te(2, 3, n_splines=[5, 4]) + s(2, n_splines=5)) if k % 4 < 2 else (te(1, 2, by=0, n_splines=[4, 4]) + te(2, 3, n_splines=[4, 5]))
+        sig = dict(cls=cls.__name__, variant=k % 4)
+        ctx.case(st, sig, nontrivial=True)
+        buf = io.StringIO()
+        try:
+            with contextlib.redirect_stdout(buf):
+                gam = cls(terms, max_iter=50).fit(X, y)
+            bad = None
+            # (i) by-variable in column 0
+            G = np.asarray(gam.generate_X_grid(term=0, n=7))
+            if not np.all(G[:, 0] == 1.0):
+                bad = 'default grid of a term whose by-variable is column 0 leaves the by column at %r' % sorted(set(G[:, 0].tolist()))[:3]
+            else:
+                p_def = np.asarray(gam.partial_dependence(0))
+                p_ref = np.asarray(gam.partial_dependence(0, X=np.asarray(gam.generate_X_grid(term=0))))
+                t0 = gam.terms[0]
+                # the documented grid rebuilt from the training data (by = 1)
+                if not t0.istensor:
+                    Gd = np.zeros((100, X.shape[1])); Gd[:, 1] = np.linspace(X[:, 1].min(), X[:, 1].max(), 100); Gd[:, 0] = 1.0
+                    p_doc = np.asarray(gam.partial_dependence(0, X=Gd))
+                    if p_def.shape != p_doc.shape or np.abs(p_def - p_doc).max() > 1e-9 * (1 + np.abs(p_doc).max()):
+                        bad = 'partial_dependence(term) without X is not the term on its documented grid with the by-variable at one'
+                if bad is None and (p_def.shape != p_ref.shape or np.abs(p_def - p_ref).max() > 1e-9 * (1 + np.abs(p_ref).max())):
+                    bad = 'partial_dependence(term) != partial_dependence(term, X=generate_X_grid(term))'
+            # (ii) user meshes of the tensor term te(2, 3): every layout gives the values at the mesh points
+            if bad is None:
+                ti = 1
+                a, b = np.linspace(-2, 2, 4), np.linspace(10, 20, 3)
+                A, B = np.meshgrid(a, b, indexing='ij')
+                pts = np.zeros((A.size, X.shape[1])); pts[:, 2] = A.ravel(); pts[:, 3] = B.ravel()
+                ref = np.asarray(gam.partial_dependence(ti, X=pts)).reshape(A.shape)
+                layouts = {'C': (np.ascontiguousarray(A), np.ascontiguousarray(B)), 'F': (np.asfortranarray(A), np.asfortranarray(B)),
+                           'T-view': (np.ascontiguousarray(A.T).T, np.ascontiguousarray(B.T).T),
+                           'float32-first': (A.astype(np.float32), B), 'xy-transposed': tuple(m.T for m in np.meshgrid(a, b))}
+                for lname, mesh in layouts.items():
+                    got = np.asarray(gam.partial_dependence(ti, X=tuple(mesh), meshgrid=True))
+                    tol = (1e-5 if lname == 'float32-first' else 1e-9) * (1 + np.abs(ref).max())
+                    if got.shape != ref.shape or np.abs(got - ref).max() > tol:
+                        bad = 'user mesh in layout %s: values are not those at the mesh points (max diff %.3g)' % (lname, float(np.abs(got - ref).max()) if got.shape == ref.shape else float('nan'))
+                        break
+            if bad:
+                ctx.fail(st, dict(kind='forced-grid', why=bad.split(':')[0][:40]), dict(sig, seed_key=k), observed=bad,
+                         expected='documented default grid (by-variable one) / values at the user mesh points', oracle='public API identities on a fixed model')
+        except Exception as e:  # noqa
+            import traceback
+            tb = traceback.format_exc()
+            if common.REPO in tb:
+                ctx.fail(st, dict(kind='exception', exc=type(e).__name__), dict(sig, seed_key=k), observed='%s: %s' % (type(e).__name__, str(e)[:300]),
+                         expected='grids and partial dependence on valid input', oracle='public API must not raise on valid input', detail=tb[-1500:])
             else:
                 raise
 
